@@ -685,6 +685,7 @@ def F_rules(ctx, rule="F"):
                                                                                             and (par.blocks[g[0]]["term"].get("sp") or {}).get("desugar") != "Await"]
                 # Ok on true arm, Err on false arm
                 oks = errs = None
+                ok_unguarded = False
                 for kind, dbb, si, x in get_defs(par).of(0):
                     if kind == "stmt" and x["rv"]["k"] == "agg" and x["rv"].get("def") == "std::result::Result":
                         gs = []
@@ -698,10 +699,12 @@ def F_rules(ctx, rule="F"):
                                 if neg:
                                     vals = frozenset(("otherwise" if v == "0" else "0") for v in vals)
                                 gs.append((sb, vals))
+                        if not gs and x["rv"]["variant"] == "Ok":
+                            ok_unguarded = True        # an `Ok(..)` returned without looking at the collected errors
                         if gs:
                             taken_true = "otherwise" in gs[0][1] and "0" not in gs[0][1]
                             if x["rv"]["variant"] == "Ok":
-                                oks = taken_true
+                                oks = taken_true if oks is not False else False
                             else:
                                 errs = not taken_true
                                 # payload .1 is the collected vector
@@ -717,9 +720,10 @@ def F_rules(ctx, rule="F"):
                                 set(fl.sources_operand(par, a_)) & set(vsrc):
                             is_coll = False
                             why = "the collected errors are modified by %s before being returned" % mp
-                okret = bool(is_coll and oks and errs)
+                okret = bool(is_coll and oks and errs and not ok_unguarded)
                 if is_coll or not str(why).startswith("the collected errors are modified"):
-                    why = "Ok when empty: %s, Err((outcome, results)) with the collected vector otherwise: %s" % (oks, errs)
+                    why = "Ok when empty: %s, Err((outcome, results)) with the collected vector otherwise: %s%s" % (
+                        oks, errs, "; an Ok(..) is also returned on a path that never looks at the collected errors" if ok_unguarded else "")
         ctx.check(okret, rule + "3", "err-iff-nonempty|%s" % key, m.where(par),
                   "the call returns Err((outcome, errors)) iff the collected error vector is non-empty, carrying it unchanged", why)
     # F5: try-fold
@@ -2171,9 +2175,24 @@ def G_rules(ctx, rule="G"):
                     ge = peel(strip_refs(expr_operand(fg, cs_[0][2]["args"][ge[1] - 1])))
                     cur_body = fg
             g_ok = ge == E(("arg", 1)) and cur_body.id == fg.id and not wrong_field
-        ok2 = has_raw and not sel and tup_ok and g_ok
+        # a collected intermediate (`let mut edges: Vec<_> = ..collect()`) is handed on as collected: nothing sorts, reverses,
+        # dedups or truncates it on the way to add_edges (the edge ids of the copy are positions in this sequence)
+        reord = None
+        for c_ in chain:
+            if c_[0] == "std::iter::Iterator::collect" and len(c_[2]) > 3 and isinstance(c_[2][3], int):
+                cbody_ = c_[1]
+                for mbb, mt in cbody_.calls():
+                    mp = callee_path(mt) or ""
+                    if mp in ("std::ops::Deref::deref", "std::ops::DerefMut::deref_mut") or mp.endswith(("::add_edges", "::into_iter", "::iter")):
+                        continue
+                    for a_ in mt["args"]:
+                        if a_["k"] != "const" and a_["pl"]["ty"].startswith(("&mut std::vec::Vec<", "&mut [")) and \
+                                any(x.kind == "alloc" and x[1] == cbody_.id and x[2] == c_[2][3] and not x[3] for x in fl.sources_operand(cbody_, a_)):
+                            reord = mp
+        ok2 = has_raw and not sel and tup_ok and g_ok and reord is None
         if not ok2:
-            why = "raw_edges of the given graph: %s/%s, adaptors %s, %s" % (has_raw, g_ok, sel, why)
+            why = "raw_edges of the given graph: %s/%s, adaptors %s, %s%s" % (has_raw, g_ok, sel, why,
+                                                                             "; the collected edge list is modified by %s before add_edges" % reord if reord else "")
     ctx.check(ok2, rule + "2", "edges", where,
               "edges come from raw_edges() in order, mapped to (source(), target(), weight), unfiltered, into add_edges", why)
     # G1b/G2b: no return path of from_graph skips the node copy or the edge copy (except for a graph without nodes / edges)
